@@ -13,6 +13,7 @@ Every program exposes entry functions with scalar parameters plus a set of argum
 from __future__ import annotations
 
 import random
+import re
 from dataclasses import dataclass, field, replace
 
 LIMIT = 10_000
@@ -136,13 +137,14 @@ class TypedGen:
 		self.enums: dict[str, list[tuple[str, int]]] = {}
 		self.lines: list[str] = []
 		self.uid = 0
+		self.observing = False
 		# switches for constructs behind open findings / not yet supported (see callers)
 		self.o = {
 			'not_cmp': True, 'cmp_chain': True, 'bit_vs_cmp': True, 'dict_get': True, 'len_arith': True, 'double_neg': True,
 			'enumerate': True, 'closures': True, 'lambdas': True, 'try': True, 'classes': True, 'enums': True, 'floats': True,
 			'str_slice': True, 'list_slice': True, 'comps': True, 'tuples': True, 'dicts': True, 'props': True, 'classmethods': True, 'inherit': True,
 			'defaults': True, 'str_methods': True, 'while': True, 'list_methods': True, 'nested_ternary': True,
-			'destructure_literal': True, 'str_lit_concat': True, 'range_bound_mutation': False, 'enum_value': True,
+			'destructure_literal': True, 'str_lit_concat': True, 'range_bound_mutation': False, 'enum_value': True, 'mixed_chain': True, 'list_fill': True, 'observe': True,
 		}
 		if opts:
 			self.o.update(opts)
@@ -382,6 +384,13 @@ class TypedGen:
 				return r.choice(floats).name
 			return r.choice(FLOAT_LITS)
 		self.f.add('float-arith')
+		if x < 0.42 and self.o['mixed_chain']:
+			# flat chain mixing int and float operands (the float anywhere in it): the whole chain is a float in both languages
+			self.f.add('float-int-chain')
+			ia, ib = self.clampi(self.int_atom(scope)), self.clampi(self.int_atom(scope))
+			fx = self.float_expr(scope, 0)
+			o1, o2 = r.choice(['+', '-']), r.choice(['+', '-'])
+			return r.choice([f'{ia.at(71)} {o1} {fx} {o2} {ib.at(71)}', f'{fx} {o1} {ia.at(71)} {o2} {ib.at(71)}', f'{ia.at(71)} {o1} {ib.at(71)} {o2} {fx}'])
 		if x < 0.55:
 			return f'{self.float_expr(scope, d - 1)} {r.choice(["+", "-"])} {self.float_expr(scope, 0)}'
 		if x < 0.75:
@@ -499,6 +508,15 @@ class TypedGen:
 			text, v.lo, v.hi = e.text, e.lo, e.hi
 		elif t == STR:
 			text, v.minlen = self.str_expr(scope, r.choice([1, 2]))
+		elif t[0] == 'list' and t[1][0] in ('int', 'str', 'float', 'bool') and self.o['list_fill'] and r.random() < 0.15:
+			# list fill: [v] * n / n * [v]
+			n = r.choice([1, 2, 3, 4])
+			elem = self.expr(t[1], scope, 1)
+			text = f'[{elem}] * {n}' if r.random() < 0.7 else f'{n} * [{elem}]'
+			v.minlen = n
+			self.f.add('list-fill')
+			if annotate is None and r.random() < 0.3:
+				annotate = False
 		else:
 			text = self.expr(t, scope, 2)
 			if text is None:
@@ -603,6 +621,10 @@ class TypedGen:
 			self.stmt(inner, ind, d, ret, in_loop)
 		if len(self.lines) == start:
 			self.emit(f'{ind}pass')
+		elif self.observing and not self.lines[-1].strip().startswith(('return', 'break', 'continue', 'raise')):
+			for name, v in inner.items():
+				if name not in scope:
+					self.fold(v, ind)
 		# variables declared inside do not leak; assignments to outer ints widen the outer interval
 		for name, v in inner.items():
 			if name in scope and v.type == INT:
@@ -642,7 +664,7 @@ class TypedGen:
 				lo = 0
 			elif y < 0.6:
 				a, b, st = r.choice([0, 1, 2]), r.choice([5, 7, 9]), r.choice([1, 2, 3])
-				head, lo, hi = f'range({a}, {b}, {st})' if st != 1 or r.random() < 0.5 else f'range({a}, {b})', a, b
+				head, lo, hi = f'range({a}, {b}, {st})' if st != 1 or r.random() < 0.25 else f'range({a}, {b})', a, b
 			elif y < 0.8 and lists:
 				bound_list = r.choice(lists)
 				head, lo, hi = f'range(len({bound_list.name}))', 0, 40
@@ -654,6 +676,12 @@ class TypedGen:
 			self.f.add('for-range')
 			self.emit(f'{ind}for {i} in {head}:')
 			inner[i] = Var(i, INT, lo, hi, mutable=False)
+			accs = [v for v in inner.values() if v.type == INT and v.mutable and v.name in scope and not re.search(rf'\b{v.name}\b', head)]
+			if accs and r.random() < 0.6:
+				# the trip count and the values of the loop variable reach the result
+				a0 = r.choice(accs)
+				self.emit(f'{ind}\t{a0.name} = clamp({a0.name} + {i})')
+				self.f.add('for-range-accumulate')
 			if not self.o['range_bound_mutation']:
 				# Python evaluates the bound once, the emitted for statement re-evaluates it every iteration (open finding
 				# range-bound-reevaluated-each-iteration): whatever the bound mentions is read-only in the body
@@ -858,11 +886,58 @@ class TypedGen:
 		self.emit('')
 		self.f.add('enum')
 
+	def fold(self, v: Var, ind: str) -> None:
+		"""Fold one local into the function's accumulator `obs`, so that a wrong value, length, element order, declared type (a float
+		declared int truncates) or field of ANY local - also one that lives in a nested block only - reaches the compared result."""
+		n, t = v.name, v.type
+		if '.' in n or n == 'obs':
+			return
+		if t == INT:
+			self.emit(f'{ind}obs = clamp(obs * 3 + {n})')
+		elif t == BOOL:
+			self.emit(f'{ind}obs = clamp(obs * 3 + (1 if {n} else 0))')
+		elif t == STR:
+			self.emit(f'{ind}obs = clamp(obs * 3 + len({n}) + (1 if {n} < \'m\' else 0))')
+		elif t == FLOAT:
+			# floats of the subset are small dyadic rationals: doubling and truncating is exact in both languages
+			self.emit(f'{ind}obs = clamp(obs * 3 + int(({n}) * 2.0) + (1 if {n} > 1.25 else 0))')
+		elif t == ('list', INT):
+			self.emit(f'{ind}for oq in {n}:')
+			self.emit(f'{ind}\tobs = clamp(obs * 3 + oq)')
+			self.emit(f'{ind}obs = clamp(obs + len({n}))')
+		elif t == ('dict', STR, INT):
+			self.emit(f'{ind}for ok, ov in {n}.items():')
+			self.emit(f'{ind}\tobs = clamp(obs + ov + len(ok))')
+		elif t[0] == 'cls' and t[1] in self.classes:
+			for fn, ft in self.classes[t[1]].all_fields(self.classes):
+				if ft == INT:
+					self.emit(f'{ind}obs = clamp(obs * 3 + {n}.{fn})')
+				elif ft == STR:
+					self.emit(f'{ind}obs = clamp(obs * 3 + len({n}.{fn}))')
+				elif ft == BOOL:
+					self.emit(f'{ind}obs = clamp(obs * 3 + (1 if {n}.{fn} else 0))')
+		elif t[0] == 'enum' and t[1] in self.enums:
+			first = self.enums[t[1]][0][0]
+			self.emit(f'{ind}obs = clamp(obs * 3 + (1 if {n} == {t[1]}.{first} else 0))')
+
+	def observe(self, scope: dict, ind: str) -> str | None:
+		if not self.observing:
+			return None
+		self.f.add('observer')
+		for v in list(scope.values()):
+			self.fold(v, ind)
+		return 'obs'
+
 	def return_stmt(self, scope: dict, ind: str, ret: tuple) -> tuple[int, int]:
 		if ret == ('none',):
 			return 0, 0
 		if ret == INT:
 			e = self.clampi(self.int_expr(scope, self.r.choice([1, 2, 3])))
+			if self.observing:
+				obs = self.observe(scope, ind)
+				if obs:
+					self.emit(f'{ind}return clamp({e.at(71)} + {obs})')
+					return -LIMIT, LIMIT
 			self.emit(f'{ind}return {e.text}')
 			return e.lo, e.hi
 		text = None
@@ -886,6 +961,15 @@ class TypedGen:
 		return -LIMIT, LIMIT
 
 	def gen_body(self, scope: dict, ind: str, ret: tuple, n_stmts: int, depth: int = 2) -> tuple[int, int]:
+		self.observing = ret == INT and self.o['observe'] and self.r.random() < 0.75 and not any(v.name == 'obs' for v in scope.values())
+		if self.observing:
+			self.emit(f'{ind}obs = 0')
+		try:
+			return self.gen_body_(scope, ind, ret, n_stmts, depth)
+		finally:
+			self.observing = False
+
+	def gen_body_(self, scope: dict, ind: str, ret: tuple, n_stmts: int, depth: int = 2) -> tuple[int, int]:
 		for _ in range(n_stmts):
 			self.stmt(scope, ind, depth, ret, False)
 		if self.o['closures'] and self.r.random() < 0.12 and ret == INT:
